@@ -676,8 +676,9 @@ def r3(ctx, repo):
                                           "frame where the single update+predict (and the unmodified code) return a series" % (side[2][1],), loc_of(r_),
                                           witness={"history": "update_predict(y, cv) with exactly one window, fh=[1, 2]"})
                             single = True
-                    if isinstance(cond, tuple) and cond[0] == "cmp" and ncols in (cond[2], cond[3]) and cond[1] in ("Eq", "NotEq"):
-                        k_ = cond[3] if cond[2] == ncols else cond[2]
+                    ncols_last = ("item", ("getattr", frame, "shape"), ("const", -1))  # a frame has two axes: shape[-1] is shape[1]
+                    if isinstance(cond, tuple) and cond[0] == "cmp" and cond[1] in ("Eq", "NotEq") and (ncols in (cond[2], cond[3]) or ncols_last in (cond[2], cond[3])):
+                        k_ = cond[3] if cond[2] in (ncols, ncols_last) else cond[2]
                         if k_ == ("const", 1):
                             single = (cond[1] == "Eq") == pol
                         elif is_const(k_) and isinstance(k_[1], int):
